@@ -1,5 +1,5 @@
 SPECIFICATION Spec
 CONSTANTS
   Wide = TRUE
-INVARIANTS Total RoundTrip Sized Suffix Prefix Sizes Printable
+INVARIANTS AllProps
 CHECK_DEADLOCK FALSE
